@@ -60,6 +60,20 @@ fn check_alpha(sym: &[u8], text: &[u8]) -> Result<(), String> {
         }
         let rt = RankTransform::new(&a);
         for (r, &c) in s.iter().enumerate() { if rt.get(c) as usize != r { return Err(format!("rank of {} is {}, want {}", c, rt.get(c), r)); } }
+        // q-gram coding over the rank transform: equal q-grams get equal codes, different q-grams different codes (injective), for every
+        // alphabet size (2, 3, 5, 9, .. are the sizes where the bit width changes)
+        if !s.is_empty() && s.len() <= 16 {
+            let t2: Vec<u8> = text.iter().map(|c| s[*c as usize % s.len()]).collect();
+            for q in 1..=3u32 {
+                if t2.len() < q as usize { continue; }
+                let codes: Vec<usize> = rt.qgrams(q, &t2[..]).collect();
+                if codes.len() != t2.len() + 1 - q as usize { return Err(format!("qgrams(q={}) yields {} codes for {} symbols", q, codes.len(), t2.len())); }
+                for a in 0..codes.len() { for b in 0..a {
+                    let same = t2[a..a + q as usize] == t2[b..b + q as usize];
+                    if same != (codes[a] == codes[b]) { return Err(format!("qgrams(q={}): q-grams at {} and {} are {} but their codes are {} and {}", q, b, a, if same { "equal" } else { "different" }, codes[b], codes[a])); }
+                } }
+            }
+        }
         let rc = dna::revcomp(dna::revcomp(&text));
         if rc != text { return Err("dna revcomp twice differs".into()); }
         if rna::revcomp(rna::revcomp(&text)) != text { return Err("rna revcomp twice differs".into()); }
